@@ -11,7 +11,7 @@ inductive Exp where
   | noKey                                   -- nil key of a positional table field
   | nil (l : Loc) | tru (l : Loc) | fls (l : Loc) | vararg (l : Loc)
   | int (v : Int) (l : Loc)
-  | flt (l : Loc)                           -- value not modelled (never compared)
+  | flt (txt : Bytes) (l : Loc)             -- numeral text (the value is compared through it; [] = synthesised 0)
   | str (s : Bytes) (l : Loc)
   | unop (op : TK) (e : Exp) (l : Loc)
   | binop (op : TK) (a b : Exp) (l : Loc)
